@@ -405,6 +405,9 @@ func (ex *Explorer) model() map[string]uint64 {
 	if r != Sat {
 		return ex.withChosen(nil)
 	}
+	if m == nil {
+		m = map[string]uint64{}
+	}
 	return ex.withChosen(m)
 }
 
